@@ -8,8 +8,8 @@ from .core import rbytes
 LEN_BIAS = [1, 2, 15, 16, 17, 31, 32, 33, 39, 40, 41, 47, 48, 49, 79, 80, 81, 255, 256, 257]
 LEN_BIG = [4095, 4096, 4097]
 
-KEY_ALPHA = "abcXYZ019 _-.äß€中\t()/"
-VAL_ALPHA = "abcXYZ019 _-.:,;äß€中\t()/#"
+KEY_ALPHA = "abcXYZ019 _-.äß€中\t()/\ufeff\u00a0"
+VAL_ALPHA = "abcXYZ019 _-.:,;äß€中\t()/#\ufeff\u00a0"
 
 
 # ---- blobs ---------------------------------------------------------------
@@ -169,8 +169,10 @@ def bf3_spec(rng, max_comps=5, p_enc=0.0, max_len=600, oversize_ok=False, allow_
     elif r < 0.033 and allow_many:
         # a package with more than 255 components (directory entry indices beyond one byte)
         n = rng.randint(256, 270)
-        spec["components"] = [{"desc": [], "blob": {"len": 1 + (i % 3), "fill": "rand", "tail0": 0, "s": i},
-                               "alen": None, "enc": False} for i in range(n)]
+        spec["components"] = [{"desc": [] if i % 4 else [[0xC1, "%02x" % (i % 251)], [i % 200, "0102"]],
+                               "blob": {"len": 1 + (i % 3) + (12 if i % 5 == 0 else 0), "fill": "rand", "tail0": 0,
+                                        "s": i},
+                               "alen": None if i % 5 else 3, "enc": False} for i in range(n)]
     return spec
 
 
